@@ -562,6 +562,9 @@ func quoteIdentifier(sb *strings.Builder, name string) {
 	for _, b := range []byte(name) {
 		if b == '"' {
 			sb.WriteString(quoteEscape)
+		} else if b == '\\' {
+			// ClickHouse processes backslash escapes inside quoted identifiers.
+			sb.WriteString(`\\`)
 		} else {
 			sb.WriteByte(b)
 		}
@@ -1106,6 +1109,11 @@ func quoteSQLString(sb *strings.Builder, s string) {
 	for _, b := range []byte(s) {
 		if b == '\'' {
 			sb.WriteString("''")
+		} else if b == '\\' {
+			// ClickHouse processes backslash escapes inside string literals:
+			// an unescaped backslash would swallow the next character,
+			// including the closing quote.
+			sb.WriteString(`\\`)
 		} else {
 			sb.WriteByte(b)
 		}
